@@ -22,7 +22,7 @@ var e1Owners = map[string][]string{
 	"C05": {"fault-hang", "fault-closed", "fault-delivery", "panic", "fault-newstream", "fault-send-ok", "close-count"},
 	"C06": {"probe", "next-rpc-stuck"},
 	"C07": {"wire", "concurrent-io", "wire-trailing"},
-	"C10": {"handler-error", "spurious-error", "probe", "client-stuck"},
+	"C10": {"handler-error", "spurious-error", "probe", "client-stuck", "panic"},
 	"C11": {"metadata", "metadata-wire"},
 	"C12": {"close-hang", "close-count", "close-leak", "close-later-op", "close-ctx", "serve-order", "panic", "fault-hang", "pooled-close", "pooled-leak", "pooled-conn-leak"},
 	"C13": {"panic", "byz-memory", "close-leak"},
@@ -1132,6 +1132,9 @@ func (x *e1) serverMovedOn(r *rpcRec) bool {
 // wantErrText: the text the client must see for a handler error (computed without
 // touching the shared sentinel).
 func wantErrText(e ErrSpec) string {
+	if e.Style == 6 {
+		return e.Msg
+	}
 	if e.Style >= 4 {
 		return sentinelText
 	}
